@@ -8,6 +8,7 @@ import (
 	"math/rand/v2"
 	"os"
 	"path/filepath"
+	"regexp"
 	"sort"
 	"strings"
 	"time"
@@ -399,6 +400,9 @@ func c01judge(c *Ctx, p *c01plan, res map[string]*bres) {
 		if c01isStructDisjIdemClass(diffs, p, v) {
 			key = "C01|struct-disjunction-not-idempotent" // recorded finding
 		}
+		if p.origin == "embed-defs" && c01isClosednessOnly(base, o2, p.deps) {
+			key = "C01|closedness-under-self-embedding-next-to-an-embedded-definition-depends-on-order" // recorded finding
+		}
 		if c01isDefaultOnlyClass(diffs, p.src) {
 			key = "C01|default-of-unified-marked-disjunctions-depends-on-declaration-split" // recorded finding
 		}
@@ -413,7 +417,7 @@ func c01judge(c *Ctx, p *c01plan, res map[string]*bres) {
 
 func init() {
 	register("C01", "exploration", func(c *Ctx) {
-		c.Rule = "programs: (a) PRNG programs of the acyclic core fragment (definitions with ?/! fields, patterns, ..., close(), embedded definitions, references to earlier fields, arithmetic, interpolation, defaults, disjunctions of scalars and structs, if, keyed for comprehensions, let, hidden fields, lists, repeated and conflicting fields), (b) the import-free evaluator testdata sources of the frozen corpus that are not listed in corpus/c01_order_dependent.txt; rearrangements: permutation of declarations at every struct level, swap and re-association of & operands, duplicated conjuncts, split and merged same-label fields, unification with _, wrapping as sole embedding, partition of the package over 2-4 files in PRNG order. Every program and rearrangement is evaluated and observed in a child process (a fatal error or hang of the evaluator is counted as an inconclusive case here and reported by C02). Oracle: per top-level field, equality of the raw and final observations (public API: kinds, values, defaults, closedness/Allows, optional/required, constraints a new field would get, probe-atom acceptance vectors, error class per path); field order and error text excluded. Non-trivial = distinct program with >=2 top-level fields for which at least one rearrangement changed the text and was compared."
+		c.Rule = "programs: (a) PRNG programs of the acyclic core fragment (definitions with ?/! fields, patterns, ..., close(), embedded definitions, references to earlier fields, arithmetic, interpolation, defaults, disjunctions of scalars and structs, if, keyed for comprehensions, let, hidden fields, lists, repeated and conflicting fields), (a2) embedding webs: structs that embed own fields and nested paths of own fields (p.a, q.p) while other declarations, some reached only through another embedded field (q: p: a: {...}), add conjuncts to the same paths - finite and acyclic by construction, (b) the import-free evaluator testdata sources of the frozen corpus that are not listed in corpus/c01_order_dependent.txt; rearrangements: permutation of declarations at every struct level, swap and re-association of & operands, duplicated conjuncts, split and merged same-label fields, unification with _, wrapping as sole embedding, partition of the package over 2-4 files in PRNG order. Every program and rearrangement is evaluated and observed in a child process (a fatal error or hang of the evaluator is counted as an inconclusive case here and reported by C02). Oracle: per top-level field, equality of the raw and final observations (public API: kinds, values, defaults, closedness/Allows, optional/required, constraints a new field would get, probe-atom acceptance vectors, error class per path); field order and error text excluded. Non-trivial = distinct program with >=2 top-level fields for which at least one rearrangement changed the text and was compared."
 		c.Assume = []string{"fields that (transitively) refer to a field that is erroneous in both programs are not compared (recorded class: the status of a field referring to an erroneous field depends on order)", "corpus files listed in corpus/c01_order_dependent.txt differ under rearrangement on the pinned tree (cycles, comprehension-built lists, closedness regressions …); they were not triaged one by one and are outside the workload"}
 		if c.Replay != nil {
 			src, _ := c.Replay["original"].(string)
@@ -462,13 +466,66 @@ func init() {
 				c01judge(c, p, res)
 			}
 		}
+		// (a2) embedding webs: structs that embed fields and nested paths of themselves while other declarations
+		//      add conjuncts to those paths (late conjuncts have to be forwarded to every embedder)
+		nEmb := c.N(1200, 20000)
+		if calibrating {
+			nEmb = 0
+		}
+		for lo := 0; lo < nEmb; lo += round {
+			var cases []bcase
+			var plans []*c01plan
+			for k := lo; k < lo+round && k < nEmb; k++ {
+				r := c.RNG(fmt.Sprintf("emb-%d", k))
+				src := gen.EmbedProgram(r, false)
+				if p := c01makePlan(c, r, fmt.Sprintf("e%d", k), src, "embed", nRearr, false, &cases); p != nil {
+					plans = append(plans, p)
+					c.Count("embedding_web_programs", 1)
+				}
+				if k < 1 {
+					c.Sample(map[string]any{"embedding_web_program": src})
+				}
+			}
+			res := c.RunBatch(cases, 30*time.Second)
+			for _, p := range plans {
+				c01judge(c, p, res)
+			}
+		}
+		// (a3) the same with definitions (an embedded #E, a struct that is a definition): on the pinned tree the
+		//      closedness of the structs involved depends on the order (recorded finding); only differences that
+		//      vanish when closedness is left out of the observation are matched to it
+		nEmbD := c.N(300, 5000)
+		if calibrating {
+			nEmbD = 0
+		}
+		for lo := 0; lo < nEmbD; lo += round {
+			var cases []bcase
+			var plans []*c01plan
+			for k := lo; k < lo+round && k < nEmbD; k++ {
+				r := c.RNG(fmt.Sprintf("embd-%d", k))
+				src := gen.EmbedProgram(r, true)
+				if !strings.Contains(src, "#") {
+					continue
+				}
+				if p := c01makePlan(c, r, fmt.Sprintf("d%d", k), src, "embed-defs", nRearr, false, &cases); p != nil {
+					plans = append(plans, p)
+					c.Count("embedding_web_programs_with_definitions", 1)
+				}
+			}
+			res := c.RunBatch(cases, 30*time.Second)
+			for _, p := range plans {
+				c01judge(c, p, res)
+			}
+		}
 		// frozen witness pairs (recorded findings, the spec's own examples of the laws): evaluated every run
 		{
 			type pair struct {
 				orig, rearr string
 				applied     []string
 			}
+			wEmbD := pair{"#E0: {p: b: {x: *1 | int}}\nt1: {\n\tq: b: {x?: int}\n\t#E0\n\tp: b: {y: 2}\n\tq\n\tp.b\n}\n", "#E0: {p: b: {x: *1 | int}}\nt1: {\n\t#E0\n\tp.b\n\tp: b: {y: 2}\n\tq: b: {x?: int}\n\tq\n}\n", []string{gen.RPermute}}
 			pairs := []pair{
+				wEmbD,
 				{"s: {a?: int}\nx: {for k, v in s {(k): v}}\n", "s: {a?: int}\nx: {for k, v in s {(k): v}} & _\n", []string{gen.RTop}},
 				{"y: {d?: 2, a: 4} | {a?: int, d: 1}\n", "y: ({d?: 2, a: 4} | {a?: int, d: 1}) & ({d?: 2, a: 4} | {a?: int, d: 1})\n", []string{gen.RDuplicate}},
 				{"I: int\nx: I & >1 & <2\n", "I: int\nx: >1 & <2 & I\n", []string{gen.RSwap}},
@@ -484,7 +541,11 @@ func init() {
 					continue
 				}
 				id := fmt.Sprintf("w%d", i)
-				plans = append(plans, &c01plan{id: id, src: pr.orig, origin: "witness", deps: c01deps(f), variant: []c01variant{{id + "/0", pr.rearr, pr.applied}}})
+				origin := "witness"
+				if pr.orig == wEmbD.orig {
+					origin = "embed-defs"
+				}
+				plans = append(plans, &c01plan{id: id, src: pr.orig, origin: origin, deps: c01deps(f), variant: []c01variant{{id + "/0", pr.rearr, pr.applied}}})
 				cases = append(cases, bcase{ID: id, Op: "c01obs", Src: pr.orig}, bcase{ID: id + "/0", Op: "c01obs", Src: pr.rearr})
 			}
 			res := c.RunBatch(cases, 30*time.Second)
@@ -700,4 +761,23 @@ func c01isStructDisjIdemClass(diffs []string, p *c01plan, v c01variant) bool {
 		}
 	}
 	return true
+}
+
+var c01closedRe = regexp.MustCompile(`\|open|\|closed=true allows=[^|;}]* any=(true|false)|\|new\.[^=|;}]+=<[^>]*>`)
+
+// c01isClosednessOnly: the two observations are equal once everything that reports closedness (open/closed,
+// Allows, what a new field would be constrained by) is left out.
+func c01isClosednessOnly(a, b c01obs, deps map[string]map[string]bool) bool {
+	strip := func(o c01obs) c01obs {
+		n := c01obs{raw: map[string]string{}, final: map[string]string{}, err: o.err}
+		for k, v := range o.raw {
+			n.raw[k] = c01closedRe.ReplaceAllString(v, "")
+		}
+		for k, v := range o.final {
+			n.final[k] = c01closedRe.ReplaceAllString(v, "")
+		}
+		return n
+	}
+	diffs, _ := c01compare(strip(a), strip(b), deps)
+	return len(diffs) == 0
 }
